@@ -2,7 +2,7 @@ SPEC = {
     'id': 'C04',
     'properties_file': 'theories/Properties/C04.v',
     'properties_module': 'Properties.C04',
-    'gen_files': [],
+    'gen_files': ['theories/GenFacts/IndexFacts.v'],
     'allowed_axioms': ['functional_extensionality_dep'],
     'streams': [{
         'name': 'index', 'pkg': '.', 'test': 'TestVerifC04',
@@ -22,6 +22,7 @@ SPEC = {
             'distinct = history x delivery plan x step',
     'trusted_base': [
         'Coq 8.16.1 kernel; vm_compute for evaluating the model on cases',
+        'translator gen/index.go (entry source and scan direction of UpdateIndex, its resets, first-wins shape of the handlers, arguments of sorting.Sort, entry source of both ListEvents)',
         'axiom: Coq.Logic.FunctionalExtensionality.functional_extensionality_dep (standard library; states hold Coq functions as maps)',
         'harness/root/zz_verif_c04_test.go, harness/root/zz_verif_meta_common_test.go (replicas over one in-memory IPFS node, '
         'silent pubsub; entries opened by the real openMetadataEntry and translated to model events; numbering by first appearance)',
